@@ -1,6 +1,7 @@
 (* Properties/C12.v — URLSearchParams is the WHATWG ordered pair list and serialisation round-trips. *)
 From GN Require Import Common.Base Gen.UrlTables Model.SearchParams Spec.SearchParamsSpec
   Proofs.SearchParamsOps Proofs.SearchParamsSort Proofs.SearchParamsRoundTrip.
+From GN Require Import Model.UspSrc.
 
 (* every history of append/delete/set/sort/getters/iterators: the object as written (index-j compaction over a
    mutable array, stale copy in set) makes exactly the observations of the WHATWG list *)
@@ -40,6 +41,12 @@ Print Assumptions C12_roundtrip.
 Theorem C12_parse_spec : forall q, parse_query q = whatwg_parse q.
 Proof. exact parse_is_whatwg. Qed.
 Print Assumptions C12_parse_spec.
+
+(* the URLSearchParams code the model mirrors — the methods of the prototype (incl. which sort function is called), the
+   constructors, the sort.Interface methods, the list helpers, parser and escaper — has the text the model was written against *)
+Theorem C12_source_tie : usp_src = expected_usp_src.
+Proof. vm_compute. reflexivity. Qed.
+Print Assumptions C12_source_tie.
 
 Example C12_nonvacuous :
   let l := [([97;43], [37;38]); ([], []); ([97;43], [61;63;32;195;169])] in
